@@ -101,6 +101,13 @@ func main() {
 			if len(os.Args) > 3 && os.Args[2] == "sortless" {
 				r = ruleSortLess(c, os.Args[3])
 			}
+			if len(os.Args) > 4 && os.Args[2] == "localidx" {
+				pk := os.Args[3]
+				r = ruleLocalIdx(c, func(f string) bool { return strings.Contains(f, pk) }, os.Args[4] == "all")
+			}
+			if len(os.Args) > 2 && os.Args[2] == "sticky" {
+				r = ruleSticky(c, "itertools", stickyByValue)
+			}
 			if len(os.Args) > 2 && os.Args[2] == "makecap" {
 				r = ruleMakeCapAny(c, func(string) bool { return true })
 			}
@@ -153,6 +160,26 @@ func main() {
 							seen[k] = true
 							out = append(out, k)
 						}
+					}
+				}
+			}
+			sort.Strings(out)
+			for _, l := range out {
+				fmt.Println(l)
+			}
+			return
+		case "reach":
+			// exported functions whose result reaches memory of a parameter
+			c := loadProgram(repoDir(), mambaMod, 9)
+			E := c.Eff()
+			var out []string
+			for _, fn := range c.Funcs {
+				if fn.Blocks == nil || fn.Synthetic != "" || fn.Parent() != nil || fn.Object() == nil || !fn.Object().Exported() {
+					continue
+				}
+				for i := 0; i < fn.Signature.Results().Len(); i++ {
+					for k, path := range E.RetReach(fn, i) {
+						out = append(out, fmt.Sprintf("%s: result %d reaches %s (%s)", c.short(fn), i, E.rootName(fn, k), path))
 					}
 				}
 			}
